@@ -199,6 +199,34 @@ def run_sharded(exe, lines, nshards=16, args=(), env=None, timeout=900):
     return outs, status
 
 
+VG_KINDS = (('Conditional jump or move depends on uninitialised value', 'uninitialised-condition'), ('Use of uninitialised value', 'uninitialised-use'),
+            ('Invalid read of size', 'invalid-read'), ('Invalid write of size', 'invalid-write'), ('Syscall param', 'uninitialised-syscall-param'),
+            ('Source and destination overlap', 'overlapping-memcpy'), ('Invalid free', 'invalid-free'), ('Mismatched free', 'mismatched-free'),
+            ('Jump to the invalid address', 'wild-jump'), ('Process terminating with default action of signal', 'fatal-signal'),
+            ('Possible data race during', 'helgrind-race'), ('Thread #', 'helgrind-report'))
+
+
+def classify_valgrind(err):
+    """key fragment for the first valgrind (memcheck / helgrind) report in a log: kind + first frame inside the library, or None"""
+    import re
+    for line in err.split('\n'):
+        m = re.match(r'==\d+== (.*)', line)
+        if not m:
+            continue
+        for needle, kind in VG_KINDS[:-1]:
+            if m.group(1).startswith(needle):
+                tail = err[err.index(line):]
+                where = 'unknown'
+                for fr in re.findall(r'==\d+==\s+(?:at|by) 0x[0-9A-F]+: ([^\n]*)', tail)[:12]:
+                    mm = re.search(r'\(((?:[\w.\-]+/)*[\w.\-]+\.(?:cpp|hpp|h|s|S)):(\d+)\)', fr)
+                    fn = fr.split(' (')[0]
+                    if 'embedded_pairing' in fn or (mm and not mm.group(1).endswith(('_drv.cpp', 'common.h'))):
+                        where = (mm.group(1) if mm else re.sub(r'\(.*', '', fn))[:70]
+                        break
+                return 'memcheck:%s:%s' % (kind, where) if not kind.startswith('helgrind') else '%s:%s' % (kind, where)
+    return None
+
+
 SAN_MARKERS = ('ERROR: AddressSanitizer', 'runtime error:', 'WARNING: ThreadSanitizer', 'ERROR: LeakSanitizer',
                'UndefinedBehaviorSanitizer', 'AddressSanitizer:DEADLYSIGNAL')
 
@@ -208,6 +236,10 @@ def classify_failure(rc, err):
     import re
     if rc == 0 and not any(m in err for m in SAN_MARKERS):
         return None
+    if '== ' in err and re.search(r'^==\d+== ', err, re.M):
+        v = classify_valgrind(err)
+        if v:
+            return v
     m = re.search(r'runtime error: ([^\n]*)', err)
     if m:
         msg = m.group(1)
